@@ -194,6 +194,7 @@ def quoteText (s : Str) : Str :=
 def verbatim (t : Token) : Str :=
   if paren t ≠ [] then paren t
   else if t.ty = .operand ∧ t.sub = .text then quoteText t.tv
+  else if t.ty = .infix ∧ t.sub = .intersect then [' ']
   else t.tv
 
 structure Env where
